@@ -15,6 +15,7 @@ func init() {
 }
 
 func runC09(r *Report) {
+	ruleReadCheckOptionHonoured(r)
 	p := r.P
 	o := &order{r, p}
 	const rv = "validate-always"
@@ -369,6 +370,42 @@ func ruleCrcAgree(r *Report) {
 		} else {
 			r.Bad(rule, key, fn.Pos(), "the raw CRC-64 is used: a non-empty value whose CRC-64/ISO is 0 (e.g. f4 42 2f f4 42 2f f4 12) is stored with checksum 0, which readers take for \"no checksum recorded\" and never verify: a flipped bit in that record is served without error under verify-on-load and verify-on-read")
 		}
+	}
+	// … and nowhere else in the package is a CRC-64 computed that bypasses the helper: a second way of hashing (a one-shot
+	// crc64.Checksum in a hot loop) disagrees with the stored checksum exactly for the values the helper exists for
+	for _, fn := range r.P.FuncsOfPkg("sstables") {
+		eachInstr(fn, func(s Site) {
+			c, ok := s.Instr.(*ssa.Call)
+			if !ok {
+				return
+			}
+			raw := false
+			if c.Call.IsInvoke() && c.Call.Method.Name() == "Sum64" {
+				raw = true
+			} else if sc := c.Call.StaticCallee(); sc != nil {
+				switch FuncKey(sc) {
+				case "hash/crc64.Checksum", "hash/crc64.Update":
+					raw = true
+				}
+			}
+			if !raw {
+				return
+			}
+			key := uniqKey(r, rule+"/"+FuncKey(fn)+"/sum-through-helper")
+			r.Saw(fn)
+			through := len(*c.Referrers()) > 0
+			for _, rf := range *c.Referrers() {
+				cc, isC := rf.(*ssa.Call)
+				if !isC || cc.Call.StaticCallee() == nil || FuncKey(cc.Call.StaticCallee()) != "sstables.nonZeroChecksum" || len(cc.Call.Args) == 0 || cc.Call.Args[0] != ssa.Value(c) {
+					through = false
+				}
+			}
+			if through {
+				r.OK(rule, key, s.Pos(), "the CRC-64 goes through nonZeroChecksum")
+			} else {
+				r.Bad(rule, key, s.Pos(), "a CRC-64 is computed here and used without nonZeroChecksum: for a non-empty value whose CRC-64/ISO is 0 the index holds 1 (the writer's mapping), this site computes 0 — the value fails verification (or, on the writing side, is never verified)")
+			}
+		})
 	}
 	if hz := r.P.Func("sstables.nonZeroChecksum"); hz != nil {
 		key := rule + "/sstables.nonZeroChecksum/shape"
